@@ -986,6 +986,9 @@ class BaseDAGExecution(Generic[P, RVDAG]):
     cached_nodes: List[ExecNode] = field(init=False, default_factory=list)
 
     profiles: Dict[Identifier, Profile] = field(init=False, default_factory=dict)
+    _from_cache_results: Optional[StrictDict[Identifier, Any]] = field(
+        init=False, default=None, repr=False
+    )
 
     def __post_init__(self) -> None:
         """Dynamic construction of attributes."""
@@ -1032,6 +1035,9 @@ class BaseDAGExecution(Generic[P, RVDAG]):
         """
         if self.executed:
             return self._results
+        # the execution starts from the results loaded from the cache file by `_pre_call`
+        if self._from_cache_results is not None:
+            return self._from_cache_results
         return self.dag.results
 
     @results.setter
@@ -1068,8 +1074,11 @@ class BaseDAGExecution(Generic[P, RVDAG]):
         if self.from_cache:
             with open(self.from_cache, "rb") as f:
                 cached_results = pickle.load(f)  # noqa: S301
-            for node in self.cached_nodes:
-                self.results = cached_results[node.id]
+            # start from the cached results: the scheduler does not execute an ExecNode whose result is known
+            results = StrictDict(self.results)
+            for node_id, result in cached_results.items():
+                results.force_set(node_id, result)
+            self._from_cache_results = results
 
     def _post_call(self) -> RVDAG:
         # mark as executed. Important for the next step
